@@ -208,7 +208,7 @@ Qed.
 (* 7.22.6.1: labs/llabs; undefined when the result is not representable (x = min) *)
 Theorem abs_ok : forall t x, in_range t x -> in_range t (Z.abs x) -> abs_m t x = Some (Z.abs x).
 Proof.
-  intros t x Hx Ha. unfold abs_m. destruct (x >=? 0) eqn:E.
+  intros t x Hx Ha. unfold abs_m. destruct (x =? 0) eqn:E0; [f_equal; lia|]. destruct (x >=? 0) eqn:E.
   - f_equal. lia.
   - replace (x * -1) with (Z.abs x) by lia. apply chk_ok. assumption.
 Qed.
